@@ -2,7 +2,7 @@
 script renderer, runner against the real crate (worker `store` mode with serve_all + tap) and
 the oracles that replay what every handler instance was handed on the Lean model
 (XsModel/Handler.lean `run`, `subscription`; XsModel/Registry.lean `announcements`)."""
-import base64, json, os, random, shutil, subprocess, threading, hashlib, time
+import base64, json, os, random, re, shutil, subprocess, threading, hashlib, time
 
 from . import common as C
 from . import storelayer as S
@@ -313,6 +313,9 @@ class Gen:
             {"values_nu": [CMD_VALUES[0], CMD_VALUES[3], CMD_VALUES[4]], "appends": [], "fail": "mid", "fail_at": 1},
             {"values_nu": [CMD_VALUES[1]], "appends": [], "fail": "eager"},
             {"values_nu": [CMD_VALUES[2], CMD_VALUES[0]], "appends": [], "suffix": ".r", "ttl": "time:600000"},
+            # the two return options are independent: a TTL without a suffix, a suffix without a TTL
+            {"values_nu": [CMD_VALUES[0], CMD_VALUES[2]], "appends": [], "ttl": "time:600000"},
+            {"values_nu": [CMD_VALUES[1]], "appends": [], "suffix": ".s"},
             {"values_nu": [CMD_VALUES[5], CMD_VALUES[6]], "appends": []},
             {"values_nu": [CMD_VALUES[7], CMD_VALUES[0]], "appends": []},
         ]
@@ -941,6 +944,13 @@ def analyse(sc, res, drv):
                             out.append(t)
                     return out
                 props = ["C14"] if trig(want_o) != trig(actual) else ["C15"]
+                # the same outputs but for the numbers in their content: what differs is the call counter the closure keeps in
+                # its environment - an invocation did not see what an earlier one had set (C14), the outputs themselves are
+                # stamped, scoped and ordered as they should be
+                if props == ["C15"]:
+                    mask = lambda l: [(x[0], x[1], x[2], x[3], re.sub(r"\d+", "#", x[4]) if isinstance(x[4], str) else x[4]) for x in l]
+                    if mask(want_o) == mask(actual):
+                        props = ["C14"]
                 # an expected output that exists under another stamp / context was produced but mis-labelled
                 exp_keys = {(x[0], dict(x[2]).get("frame_id")) for x in want_o} - {(x[0], dict(x[2]).get("frame_id")) for x in actual}
                 for f in live:
